@@ -196,3 +196,13 @@ def _nonpos_product(h, fa, fb):
     """eager decision fa*fb <= 0 (forks in symbolic mode)."""
     p = fa * fb
     return bool(p <= 0)
+
+
+def tolerance_claims(h, st, hy, where=""):
+    """every root search inside Hydrodynamics gets xtol = the absolute and rtol = the relative
+    tolerance of the object (they have different dimensions: swapping them is a units bug)"""
+    from symx.core import Cond
+    for c in st.calls:
+        if c[0] == "root_scalar" and (c[3] is not None or c[4] is not None):
+            h.prove(where + "root search tolerances: xtol = atol (absolute), rtol = rtol (relative)",
+                    Cond(b=(c[3] == hy.atol) and (c[4] == hy.rtol)))
